@@ -706,8 +706,52 @@ def table_case(head, version, conn, status, clmode, shape, cclose=False):
                    cclose=cclose, **kw)
 
 
+ERROR_CLASSES = [("BadRequest", "Invalid header"), ("RequestEntityTooLarge", "exceeds max_body"),
+                 ("RequestHeaderFieldsTooLarge", "exceeds max_header"),
+                 ("ServerNotImplemented", "Transfer-Encoding requested is not supported.")]
+
+
+def error_table():
+    """request.error answered by ErrorTask: every error class the parser produces x method{GET,HEAD}
+    x version x Connection x the parser's connection_close verdict (a response to HEAD has no body:
+    fix 7243240)"""
+    out = []
+    for cls, body in ERROR_CLASSES:
+        for head in (False, True):
+            for version in VERSIONS:
+                for conn in CONNS:
+                    for cclose in (False, True):
+                        out.append((("table-error", cls, head, version, conn, cclose),
+                                    mk_case(version=version, conn=conn, head=head, err=[cls, body], cclose=cclose)))
+    return out
+
+
+def ladder_500_table():
+    """the application fails before any output: the ladder's 500, for method{GET,HEAD} x version x
+    Connection x connection_close x expose_tracebacks x where the failure happens (a response to
+    HEAD has no body: fix 52947ac -- the ladder's err_request inherits the command)"""
+    out = []
+    failing = [
+        ("raises in the call", [["R", "XE"]], []),
+        ("refused start_response", [S("200 OK\r\n", [])], []),
+        ("raises in the first iteration after start_response", [S("200 OK", [("X-A", "1")])], [RZ("XE")]),
+        ("yields before start_response", [], [Y(b"body")]),
+        ("BaseException in the call", [["R", "XB"]], []),
+    ]
+    for tag, call, steps in failing:
+        for head in (False, True):
+            for version in VERSIONS:
+                for conn in CONNS:
+                    for cclose in (False, True):
+                        for expose in (False, True):
+                            out.append((("table-500", tag, head, version, conn, cclose, expose),
+                                        mk_case(call, steps=steps, version=version, conn=conn, head=head,
+                                                cclose=cclose, expose=expose)))
+    return out
+
+
 def decision_table():
-    """the complete finite decision table"""
+    """the complete finite decision table (application responses, then the error table)"""
     out = []
     for head in (False, True):
         for version in VERSIONS:
@@ -718,7 +762,7 @@ def decision_table():
                             for cclose in (False, True):
                                 out.append((("table", head, version, conn, status, clmode, shape[0], cclose),
                                             table_case(head, version, conn, status, clmode, shape, cclose)))
-    return out
+    return out + error_table()
 
 
 HOSTILE = ["\r", "\n", "\r\n", "\x00", "\x0b", "\x0c", "\x85", "Ā", " ", "中", ":", " ", "\t",
@@ -1198,6 +1242,8 @@ def fault_cases(rng, tier):
                 for disc in (None, 0, 1, 2, 3):
                     for ident in ("waitress", "", "Idént"):
                         out.append((("error task", cls), mk_case(version=version, conn=conn, err=[cls, body], disc=disc, ident=ident)))
+                    # the same error answered to a HEAD request: no body is written (one write_soon less)
+                    out.append((("error task", cls, "HEAD"), mk_case(version=version, conn=conn, err=[cls, body], disc=disc, head=True)))
     return out
 
 
@@ -1341,9 +1387,12 @@ def framing_cases(rng, tier):
         for version in VERSIONS:
             for conn in CONNS:
                 out.append((("error task", cls, version, conn), mk_case(version=version, conn=conn, err=[cls, body])))
+                out.append((("error task to HEAD", cls, version, conn),
+                            mk_case(version=version, conn=conn, err=[cls, body], head=True, expose=(conn == "close"),
+                                    ident=("" if version == "1.0" else "waitress"))))
     # application failures answered by the ladder's 500
     for version in VERSIONS:
         for conn in CONNS:
             c = mk_case([["R", "XE"]], version=version, conn=conn)
             out.append((("ladder 500", version, conn), c))
-    return out
+    return out + ladder_500_table()
